@@ -229,6 +229,9 @@ def run(rep):
         pat, subj = x[2][1], x[2][2]
         okse = okse and pq.mentions(pat, lambda y: pq.call_named(y, "py.str")) and pq.mentions(subj, lambda y: pq.call_named(y, "py.str") and pq.mentions(y, lambda z: pq.call_named(z, "getitem"))) and \
             pq.mentions(pat, lambda y: pq.call_named(y, "elem")) and not pq.mentions(pat, lambda y: pq.call_named(y, "py.enumerate"))
+    flagged = [x for x in srch if len(x[2]) > 3 or (len(x) > 3 and dict(x[3]).get("flags") is not None)]
+    rep.check(not flagged, "R19.d", rel, "OptionManager.search", "the pattern match carries no flag (case-insensitive or multi-line matching makes find() return options that are not equal)",
+              f"re.search called with {show(flagged[0][2][3])[:40] if flagged and len(flagged[0][2]) > 3 else 'flags='}" if flagged else "", line=sr.lineno)
     alls = any("all(" in ast.unparse(n) for n in ast.walk(sr) if isinstance(n, (ast.If, ast.IfExp, ast.Assign, ast.Return)))
     app = any(e.kind == 'call' and e.target.endswith(".append") and pq.mentions(e.val, lambda y: pq.call_named(y, "py.enumerate")) for p_ in list(spaths) + _loop_paths(pe) for e in p_.effects)
     rep.check(okse and alls and app, "R19.d", rel, "OptionManager.search", "a task is returned iff every criterion matches (re.search) the string form of its option", "", line=sr.lineno)
